@@ -48,6 +48,21 @@ func TestSweep(t *testing.T) {
 		}
 		ns = append(ns, maxN, maxN-1, maxN-2)
 		ds = append(ds, day, day-1, day-2)
+		// round arguments: the first 120 multiples of every round unit, with both neighbours
+		for k := int64(1); k <= 120; k++ {
+			for off := int64(-1); off <= 1; off++ {
+				for _, u := range RoundUnitsD {
+					if d := u*k + off; d <= day {
+						ds = append(ds, d)
+					}
+				}
+				for _, u := range RoundUnitsN {
+					if n := u*k + off; n <= maxN {
+						ns = append(ns, n)
+					}
+				}
+			}
+		}
 		// products (rate x duration, count x 10^9) next to multiples of 2^53, 2^63 and 2^64
 		for _, j := range []uint{53, 63, 64} {
 			for m := int64(1); m <= 5; m++ {
